@@ -23,7 +23,7 @@ def sh(cmd, cwd=None, env=None, timeout=3000):
 
 
 def main():
-    src, sid, props = sys.argv[1], sys.argv[2], sys.argv[3:]
+    src, sid, props = os.path.abspath(sys.argv[1]), sys.argv[2], sys.argv[3:]
     meta = json.load(open(os.path.join(src, "meta.json")))
     patch = os.path.join(src, "patch.diff")
     demo = os.path.join(src, "demo_test.go")
